@@ -4,6 +4,7 @@ import PoaVerif.Model.Spec
 import PoaVerif.Props.C04
 import PoaVerif.Lemmas.Corollaries
 import PoaVerif.Lemmas.Quiet2.Effect
+import PoaVerif.Lemmas.Quiet2.Gov
 import PoaVerif.Witness.Q3
 /-
   C13 — slashing/jailing and admin operations compose safely.
@@ -179,6 +180,24 @@ theorem c13_return_partial (s s' : App) (c c' : CSet) (ups : List (Nat × Int)) 
 
 /-! ### along whole histories: punishments inside the envelope (`Lemmas/Quiet2`) -/
 
+/-- what `G2` says about jailed and live validators -/
+theorem c13_views_of_G2 (s : App) (c : CSet) (g2 : G2 s c) :
+    (∀ v ∈ s.vals, v.jailed = true → s.queryPower (some v.op) = some 0 ∧ alookup v.key c = none ∧ v.status ≠ .bonded) ∧
+    (∀ v ∈ s.vals, Active v → alookup v.key c = some ((powerOf v.tokens : Nat) : Int)) := by
+  obtain ⟨hv, _⟩ := G2_views s c g2
+  constructor
+  · intro v hvm hj
+    rcases hv v hvm with ⟨ha, _, _⟩ | ⟨hcls, h2', h3'⟩
+    · rw [ha.2.1] at hj; cases hj
+    · refine ⟨h2', h3', ?_⟩
+      intro hb
+      rcases hcls with hu | hjl
+      · rw [hu.2.1] at hj; cases hj
+      · exact g2.noLeaving v hvm (Or.inr ⟨hjl, hb⟩)
+  · intro v hvm ha
+    have := g2.allCur v hvm ha
+    rw [this]; rfl
+
 /-- **C13, along whole histories with downtime jailing and double-sign evidence**: from every well-formed genesis, along
     every quiet history in the wider sense (`QuietHistory2`) — in which x/slashing and x/evidence may punish: whoever
     they jail was a live validator not re-weighted in the previous block, and the shape of what their BeginBlockers did
@@ -195,27 +214,26 @@ theorem c13_history_partial (g : Genesis) (hw : g.wf = true) (bs : List Block) (
         (∀ v ∈ st.app.vals, Active v → alookup v.key st.comet = some ((powerOf v.tokens : Nat) : Int)) := by
   obtain ⟨first, steps, h1, h2, _, hg, h5⟩ := quiet_history2 g hw bs hq
   refine ⟨first, steps, h1, h2, ?_⟩
-  have key : ∀ (s : App) (c : CSet), G2 s c →
-      (∀ v ∈ s.vals, v.jailed = true → s.queryPower (some v.op) = some 0 ∧ alookup v.key c = none ∧ v.status ≠ .bonded) ∧
-      (∀ v ∈ s.vals, Active v → alookup v.key c = some ((powerOf v.tokens : Nat) : Int)) := by
-    intro s c g2
-    obtain ⟨hv, _⟩ := G2_views s c g2
-    constructor
-    · intro v hvm hj
-      rcases hv v hvm with ⟨ha, _, _⟩ | ⟨hcls, h2', h3'⟩
-      · rw [ha.2.1] at hj; cases hj
-      · refine ⟨h2', h3', ?_⟩
-        intro hb
-        rcases hcls with hu | hjl
-        · rw [hu.2.1] at hj; cases hj
-        · exact g2.noLeaving v hvm (Or.inr ⟨hjl, hb⟩)
-    · intro v hvm ha
-      have := g2.allCur v hvm ha
-      rw [this]; rfl
   intro st hst
   rcases List.mem_cons.mp hst with e | e
-  · rw [e]; exact key _ _ hg
-  · exact key _ _ (h5 st e).2
+  · rw [e]; exact c13_views_of_G2 _ _ hg
+  · exact c13_views_of_G2 _ _ (h5 st e).2
+
+/-- **C13 when the admin's operations arrive through governance** (`QuietHistory3`, see `Props.C02.c02_governance`):
+    jailing by x/slashing / x/evidence interleaved with executed proposals (lists of admin messages) — the conclusion of
+    `c13_history_partial` -/
+theorem c13_history_governance_partial (g : Genesis) (hw : g.wf = true) (bs : List Block) (hq : QuietHistory3 g bs) :
+    ∃ first steps, run genEnv g bs = some (first, steps, RunEnd.done) ∧ steps.length = bs.length ∧
+      ∀ st ∈ first :: steps,
+        (∀ v ∈ st.app.vals, v.jailed = true →
+          st.app.queryPower (some v.op) = some 0 ∧ alookup v.key st.comet = none ∧ v.status ≠ .bonded) ∧
+        (∀ v ∈ st.app.vals, Active v → alookup v.key st.comet = some ((powerOf v.tokens : Nat) : Int)) := by
+  obtain ⟨first, steps, h1, h2, _, hg, h5⟩ := quiet_history3 g hw bs hq
+  refine ⟨first, steps, h1, h2, ?_⟩
+  intro st hst
+  rcases List.mem_cons.mp hst with e | e
+  · rw [e]; exact c13_views_of_G2 _ _ hg
+  · exact c13_views_of_G2 _ _ (h5 st e).2
 
 /-- non-vacuity (kernel-checked, block by block): in the witness history `Q3` validator 3 misses three blocks and is
     jailed by x/slashing's BeginBlocker of block 5 (slash fraction 0 in this genesis) — the block in which the admin also removes
